@@ -118,6 +118,17 @@ def run(ctx):
                 for k in ks:
                     retry = t.replace(' K ', ' -1 ')
                     jobs.append((h + [t.replace(' K ', ' %d ' % k), 'dump', retry, 'dump'] + ['1 -1 list %s' % nm for nm in NAMES], '%s | %s | k=%d' % (' ; '.join(h[3:]), t, k)))
+            # a Hello that fails half-way, then ANOTHER client's Hello: whatever the first one got, the second name is fresh
+            h3 = ['1 -1 hello', '2 -1 hello'] + [x for x in h[3:] if x.split()[0] in ('1', '2')][:3]
+            t3 = '3 K hello'
+            out, rc, err = run_script(ctx.build, conf, h3 + [t3.replace(' K ', ' -1 ')])
+            if rc == 0 and out.strip():
+                last = json.loads(out.strip().splitlines()[-1])
+                n = max((o.get('allocs', 0) for ops in last['ops'] for o in ops), default=0)
+                ks = list(range(n)) if n <= maxk else sorted(set(int(i * (n - 1) / (maxk - 1)) for i in range(maxk)))
+                for k in ks:
+                    jobs.append((h3 + [t3.replace(' K ', ' %d ' % k), 'dump', '4 -1 hello', 'dump', '3 -1 hello', 'dump'],
+                                 '%s | %s | k=%d' % (' ; '.join(h3[2:]), t3 + ' then 4 hello', k)))
             # a reply routed between two peers: after the fault either the replier tries again (the reply must still be
             # awaited and go through) or leaves (the caller must be told NoReply)
             a, b = rng.sample([1, 2, 3], 2)
